@@ -1,7 +1,7 @@
 (* C07 — Conversions, copies, transposes and sums preserve the represented operator.
    Property-level theorems only; each is closed by a lemma from Sparse/*Proofs.v.
    `den_X A i j` is the sum of all stored values of A at (i,j): the operator A represents. *)
-From Raptor Require Import Base.Sums Sparse.Defs Sparse.ConvertProofs Sparse.SortProofs Sparse.Block Sparse.BlockProofs.
+From Raptor Require Import Base.Sums Sparse.Defs Sparse.ConvertProofs Sparse.SortProofs Sparse.Block Sparse.BlockProofs Sparse.BlockConvProofs.
 
 Section C07.
 Variable F : Type.
@@ -132,6 +132,70 @@ Proof.
   split; [intros; apply (bcoo_expand_den F zero one add mul sub opp Fth); assumption|split; reflexivity].
 Qed.
 
+(* Block forms BCOO / BSR / BSC (the polymorphic formats at T = row-major blocks).  bden_X br bc A is the operator
+   the block matrix represents (entry (I*br + r, J*bc + c) = sum over the stored blocks at (I, J) of their entry (r, c),
+   C02_block_kernels / bcoo_expand_den).  Every in-range position is of the form (I*br + r, J*bc + c) with r < br, c < bc. *)
+Notation bdenCoo := (bden_coo F zero add).
+Notation bdenCsr := (bden_csr F zero add).
+Notation bdenCsc := (bden_csc F zero add).
+
+Theorem C07_block_conversions br bc I J r c (A : coo (list F)) (B : csr (list F)) (C : csc (list F)) :
+  r < br -> c < bc -> coo_wf A -> csr_wf B -> csc_wf C ->
+  let i := I * br + r in let j := J * bc + c in
+  bdenCsr br bc (coo_to_csr A) i j = bdenCoo br bc A i j /\
+  bdenCsc br bc (coo_to_csc A) i j = bdenCoo br bc A i j /\
+  bdenCoo br bc (csr_to_coo B) i j = bdenCsr br bc B i j /\
+  bdenCoo br bc (csc_to_coo C) i j = bdenCsc br bc C i j /\
+  bdenCsc br bc (csr_to_csc B) i j = bdenCsr br bc B i j /\
+  bdenCsr br bc (csc_to_csr C) i j = bdenCsc br bc C i j /\
+  bdenCoo br bc (coo_to_coo A) i j = bdenCoo br bc A i j /\
+  bdenCsr br bc (csr_to_csr B) i j = bdenCsr br bc B i j /\
+  bdenCsc br bc (csc_to_csc C) i j = bdenCsc br bc C i j.
+Proof.
+  intros Hr Hc HA HB HC i j.
+  split; [apply (bden_coo_to_csr F zero one add mul sub opp Fth); assumption|].
+  split; [apply (bden_coo_to_csc F zero one add mul sub opp Fth); assumption|].
+  split; [reflexivity|]. split; [reflexivity|].
+  split; [apply (bden_csr_to_csc F zero one add mul sub opp Fth); assumption|].
+  split; [apply (bden_csc_to_csr F zero one add mul sub opp Fth); assumption|].
+  destruct A, B, C; repeat split; reflexivity.
+Qed.
+
+Theorem C07_block_sort_move_diag br bc I J r c (A : coo (list F)) (B : csr (list F)) (C : csc (list F)) :
+  r < br -> c < bc ->
+  let i := I * br + r in let j := J * bc + c in
+  bdenCoo br bc (coo_sort A) i j = bdenCoo br bc A i j /\
+  bdenCsr br bc (csr_sort B) i j = bdenCsr br bc B i j /\
+  bdenCsc br bc (csc_sort C) i j = bdenCsc br bc C i j /\
+  bdenCsr br bc (csr_move_diag B) i j = bdenCsr br bc B i j /\
+  bdenCsc br bc (csc_move_diag C) i j = bdenCsc br bc C i j.
+Proof.
+  intros Hr Hc i j.
+  split; [apply (bden_coo_sort F zero one add mul sub opp Fth); assumption|].
+  split; [apply (bden_csr_sort F zero one add mul sub opp Fth); assumption|].
+  split; [apply (bden_csc_sort F zero one add mul sub opp Fth); assumption|].
+  split; [apply (bden_csr_move_diag F zero one add mul sub opp Fth); assumption|].
+  apply (bden_csc_move_diag F zero one add mul sub opp Fth); assumption.
+Qed.
+
+(* block transposes: block (I, J) becomes block (J, I) holding the transposed bc x br block; dimensions exchanged *)
+Theorem C07_block_transposes br bc I J r c (A : coo (list F)) (B : csr (list F)) (C : csc (list F)) :
+  r < br -> c < bc -> csr_wf B -> csc_wf C ->
+  let i := I * br + r in let j := J * bc + c in
+  bdenCoo bc br (bcoo_transpose zero br bc A) j i = bdenCoo br bc A i j /\
+  bdenCsr bc br (bsr_transpose zero br bc B) j i = bdenCsr br bc B i j /\
+  bdenCsc bc br (bsc_transpose zero br bc C) j i = bdenCsc br bc C i j /\
+  (coo_nr (bcoo_transpose zero br bc A) = coo_nc A /\ coo_nc (bcoo_transpose zero br bc A) = coo_nr A) /\
+  (csr_nr (bsr_transpose zero br bc B) = csr_nc B /\ csr_nc (bsr_transpose zero br bc B) = csr_nr B) /\
+  (csc_nr (bsc_transpose zero br bc C) = csc_nc C /\ csc_nc (bsc_transpose zero br bc C) = csc_nr C).
+Proof.
+  intros Hr Hc HB HC i j.
+  split; [apply (bden_coo_transpose F zero one add mul sub opp Fth); assumption|].
+  split; [apply (bden_csr_transpose F zero one add mul sub opp Fth); assumption|].
+  split; [apply (bden_csc_transpose F zero one add mul sub opp Fth); assumption|].
+  apply (dims_block_transposes F zero).
+Qed.
+
 End C07.
 
 Print Assumptions C07_coo_to_csr.
@@ -149,3 +213,6 @@ Print Assumptions C07_move_diag.
 Print Assumptions C07_remove_duplicates.
 Print Assumptions C07_add_subtract.
 Print Assumptions C07_bsr_to_csr.
+Print Assumptions C07_block_conversions.
+Print Assumptions C07_block_sort_move_diag.
+Print Assumptions C07_block_transposes.
